@@ -463,6 +463,17 @@ Proof.
   split; [rewrite R1, R, <- app_assoc; reflexivity|exact F1].
 Qed.
 
+Theorem component_mul_point_len jubjub point s :
+  length (wits (snd (component_mul_point jubjub point s))) = (length (wits s) + 2520)%nat.
+Proof.
+  unfold component_mul_point.
+  pose proof (component_decomposition_rows 252 jubjub s) as [_ B].
+  pose proof (component_decomposition_len 252 jubjub s) as L.
+  destruct (component_decomposition 252 jubjub s) as [bits s1]. cbn [fst snd] in *.
+  destruct (mul_point_loop_rows (rev bits) point W_IDENTITY s1) as (_ & _ & L2). cbv zeta in L2.
+  rewrite L2, L, rev_length. subst bits. unfold decomp_bit_wires. rewrite map_length, seq_length. lia.
+Qed.
+
 Theorem mul_point_sound asg jubjub point n :
   let P := (asg (fst point), asg (snd point)) in
   asg W_ZERO = 0 -> asg W_ONE = 1 -> on_curve P ->
